@@ -1221,4 +1221,107 @@ example :
     (stepOut ⟨(exSrc false).1, [(exSrc false).2]⟩ (.mutate 0 (.setItem 0 7))).2 = some .attr := by
   decide +kernel
 
+/-! ## Round 4: new object whatever the past of the source; container-type independence; branches of
+    `validate_analysis_period` -/
+
+/-- The object graph of a new collection always ends in a new collection cell: whatever the spec says
+    about sharing headers or values, the collection object itself is new. -/
+theorem mkColl_ref_ge {h : Heap} (wf : WF h) (s : NewSpec) : h.next ≤ (mkColl h s).2 := by
+  have e1 := allocHdr_ext wf s.hdr
+  have e2 := allocVals_ext e1.2 s.vals
+  have : (mkColl h s).2 = (allocVals (allocHdr h s.hdr).1 s.vals).1.next := rfl
+  rw [this]
+  exact Nat.le_trans e1.1.1 e2.1.1
+
+/-- **A deriving operation never hands back an object that exists already** — in particular not the
+    collection it was asked of — for every one of the 25 operations, every collection class, both
+    mutabilities, either value of the hidden `validated_a_period` flag, every past of the source, and in
+    both modes of the model (the tree as pinned and as repaired).  (The class of change "a subclass
+    variant returns `self` when a flag says the work was done before".) -/
+theorem C14_derive_new_object {m : Mode} {h h' : Heap} {live : List Nat} {c r : Nat} {op : DOp}
+    (inv : Inv anyFP h live) (e : derive m h c op = .ok (h', r)) :
+    r ≠ c ∧ ∀ b ∈ live, r ≠ b := by
+  unfold derive at e
+  split at e
+  · cases e
+  · rename_i sp hsp
+    have e' : mkColl h sp = (h', r) := Except.ok.inj e
+    have hr : h.next ≤ r := by
+      have := mkColl_ref_ge inv.1 sp
+      rw [e'] at this
+      exact this
+    refine ⟨?_, fun b hb => Nat.ne_of_gt (Nat.lt_of_lt_of_le (live_lt inv b hb) hr)⟩
+    intro hrc
+    cases hs : src h c with
+    | error x => simp [specOf, hs, bind, Except.bind] at hsp
+    | ok s =>
+      have hc := (src_ok hs).1
+      have : h.cells c = none := inv.1 c (hrc ▸ hr)
+      rw [this] at hc
+      cases hc
+
+/-- Non-vacuity: `validate_analysis_period()` of a discontinuous collection whose flag is set already
+    (second source of the example) answers with a new object (index 2), like the unvalidated one. -/
+example :
+    let st := run ⟨Heap.empty, []⟩
+      [.build .hd true true 0 0 [1, 1, 0, 1, 1, 23, 1, 0] [(1, .tok "1")] [0, 60] [5, 6],
+       .derive 0 (.validate [1, 1, 0, 1, 1, 23, 1, 0] [0, 60] [5, 6])]
+    st.live.length = 2 ∧ st.live.Nodup := by decide +kernel
+
+/-- **Branches of `validate_analysis_period`** (continuous override: a duplicate; the other four
+    classes: a rebuilt collection): in both branches, for either value of the source's `validated` flag
+    and both mutabilities, the result carries a new header with a deep-copied metadata dict and has its
+    flag set; outside the continuous branch the values are a new list and the result is mutable. -/
+theorem C14_validate_branches {m : Mode} {h : Heap} {c : Nat} {ap dts : List Nat} {vals : List Rat}
+    {s : Src} {sp : NewSpec} (hs : src h c = .ok s)
+    (e : specOf m h c (.validate ap dts vals) = .ok sp) :
+    sp.validated = true ∧ (∃ dt u a md, sp.hdr = .new dt u (.new a) (.new md)) ∧
+    (s.k.cls ≠ .hc → sp.vals = .new vals false ∧ sp.isMut = true ∧ sp.dts = dts) ∧
+    (s.k.cls = .hc → sp.isMut = s.k.isMut ∧ sp.dts = s.k.dts) := by
+  simp only [specOf, hs, bind, Except.bind] at e
+  split at e
+  · rename_i hc
+    cases e
+    exact ⟨rfl, ⟨_, _, _, _, rfl⟩, fun hn => absurd hc hn, fun _ => ⟨rfl, rfl⟩⟩
+  · rename_i hc
+    split at e
+    · cases e
+    · cases e
+      exact ⟨rfl, ⟨_, _, _, _, rfl⟩, fun _ => ⟨rfl, rfl, rfl⟩, fun hh => absurd hh hc⟩
+
+/-- **Container-type independence of the constructors**: a collection built from a sequence object the
+    caller holds is the collection built from the numbers in it — whether that object is a list or a
+    tuple (`t`), and nothing of the object itself is kept (the result is `build`, all of whose cells are
+    new: `C14_build_separated`). -/
+theorem C14_build_container_independent {h : Heap} {cls : Cls} {mt vd t : Bool} {dt u : Nat}
+    {ap dts : List Nat} {md : List (Nat × OV)} {lst : Nat} {v : List Rat}
+    (hg : getVals h lst = some (v, t)) (hn : checkVals cls dts v.length = true) :
+    buildFrom h cls mt vd dt u ap md dts lst = .ok (build h cls mt vd dt u ap md dts v) := by
+  simp [buildFrom, hg, hn]
+
+/-- The same for `get_aligned_collection(value=<sequence object>)`: what is allocated and what is shared
+    is what `get_aligned_collection(value=[the numbers])` allocates and shares. -/
+theorem C14_aligned_container_independent {m : Mode} {h : Heap} {c lst : Nat} {v : List Rat} {t : Bool}
+    {u : Option Nat} {mt : Option Bool} (hg : getVals h lst = some (v, t)) :
+    specOf m h c (.aligned (.listRef lst) u mt) = specOf m h c (.aligned (.list v) u mt) := by
+  cases hs : src h c with
+  | error x => simp [specOf, hs, bind, Except.bind]
+  | ok s => simp [specOf, hs, hg, bind, Except.bind]
+
+/-- The same for the `values` setter: assigning a sequence object is assigning the numbers in it (the
+    collection gets a new list; `C14_frame_list` then says later edits of the caller's list are not seen). -/
+theorem C14_set_values_container_independent {m : Mode} {h : Heap} {c lst : Nat} {v : List Rat} {t : Bool}
+    (hg : getVals h lst = some (v, t)) :
+    mutate m h c (.setValuesRef lst) = mutate m h c (.setValues v) := by
+  cases hs : src h c with
+  | error x => simp [mutate, hs, bind, Except.bind]
+  | ok s =>
+    simp only [mutate, hs, hg, bind, Except.bind]
+    by_cases hm : s.k.isMut = true
+    · simp [hm]
+    · simp [hm, setVals]
+
+/-- Non-vacuity of the three container theorems: a caller's list `[5, 6]` at reference 0. -/
+example : getVals (newList Heap.empty [5, 6]).1 0 = some ([5, 6], false) := by decide +kernel
+
 end LbHeap
